@@ -566,6 +566,9 @@ def run(ck, prog, tier):
     ck.saw('functions', [f_init.qualname + ' @ ' + f_init.loc(), f_int.qualname + ' @ ' + f_int.loc()])
     if len(f_init.params) != 2 or len(f_int.params) != 2:
         raise AnalysisError('rtree.Index public signatures changed')
+    from .. import purity
+    n_own = purity.check_ownership(ck, f_int, 'C14-D4-result-ownership')
+    ck.floor('in-place updated result containers', n_own, 1)
     name, comps, node = check_partition(ck, prog, f_init)
     check_extent_fold(ck, prog, f_init, cls)
     check_intersection(ck, prog, f_int, cls, tier)
